@@ -1,5 +1,5 @@
 # replay of a bounded stand-in violation (C14): re-run native/c14_io.py
 import sys
-print("blackbird MeasureHomodyne(select=0.0): command 0 (MeasureHomodyne): select ('num', 0j) loaded as ('none',)")
+print("blackbird Del: loading what was saved raised KeyError: 'parentCtx'")
 print('REPLAY-VIOLATION')
 sys.exit(1)
